@@ -47,7 +47,7 @@
  */
 static void bn_div_imp(bn_t c, bn_t d, const bn_t a, const bn_t b) {
 	bn_t q, x, y, r;
-	int sign;
+	int sign, exact;
 
 	bn_null(q);
 	bn_null(x);
@@ -56,20 +56,23 @@ static void bn_div_imp(bn_t c, bn_t d, const bn_t a, const bn_t b) {
 
 	/* If |a| < |b|, we're done. */
 	if (bn_cmp_abs(a, b) == RLC_LT) {
-		if (bn_sign(a) == bn_sign(b)) {
-			if (c != NULL) {
-				bn_zero(c);
-			}
+		/* The outputs may be the inputs: read the signs first and write the
+		 * remainder, which depends on the inputs, before the quotient. */
+		int same = (bn_sign(a) == bn_sign(b));
+		if (same) {
 			if (d != NULL) {
 				bn_copy(d, a);
 			}
+			if (c != NULL) {
+				bn_zero(c);
+			}
 		} else {
+			if (d != NULL) {
+				bn_add(d, a, b);
+			}
 			if (c != NULL) {
 				bn_set_dig(c, 1);
 				bn_neg(c, c);
-			}
-			if (d != NULL) {
-				bn_add(d, a, b);
 			}
 		}
 		return;
@@ -100,20 +103,24 @@ static void bn_div_imp(bn_t c, bn_t d, const bn_t a, const bn_t b) {
 		r->sign = b->sign;
 		bn_trim(r);
 
-		/* We have the quotient in q and the remainder in r. */
-		if (c != NULL) {
-			if ((bn_is_zero(r)) || (bn_sign(a) == bn_sign(b))) {
-				bn_copy(c, q);
-			} else {
-				bn_sub_dig(c, q, 1);
-			}
-		}
+		/* We have the quotient in q and the remainder in r. The outputs may
+		 * be the inputs: decide first, and write the remainder, which still
+		 * needs the divisor, before the quotient. */
+		exact = (bn_is_zero(r)) || (bn_sign(a) == bn_sign(b));
 
 		if (d != NULL) {
-			if ((bn_is_zero(r)) || (bn_sign(a) == bn_sign(b))) {
+			if (exact) {
 				bn_copy(d, r);
 			} else {
 				bn_sub(d, b, r);
+			}
+		}
+
+		if (c != NULL) {
+			if (exact) {
+				bn_copy(c, q);
+			} else {
+				bn_sub_dig(c, q, 1);
 			}
 		}
 	}
@@ -210,16 +217,17 @@ void bn_div_rem_dig(bn_t c, dig_t *d, const bn_t a, dig_t b) {
 		bn_copy(q, a);
 		bn_div1_low(q->dp, &r, (const dig_t *)a->dp, b, a->used);
 
-		if (c != NULL) {
-			bn_copy(c, q);
-		}
-
+		/* The quotient may be the dividend, read its sign first. */
 		if (d != NULL) {
 			if (bn_sign(a) == RLC_NEG) {
 				*d = b - r;
 			} else {
 				*d = r;
 			}
+		}
+
+		if (c != NULL) {
+			bn_copy(c, q);
 		}
 	}
 	RLC_CATCH_ANY {
